@@ -9,6 +9,7 @@ use vcommon::refmodel::*;
 use vcommon::seq::*;
 
 pub mod oracles;
+pub mod case;
 
 pub fn kstr<K: Kmer>(k: &K) -> S {
     (0..K::k()).map(|i| k.get(i)).collect()
